@@ -10,8 +10,13 @@ _FACTOR_LINE = re.compile(r"\[((?:[0-9]+, )*[0-9]+)\], ([A-Za-z]+)")
 
 def factor_lines(package_dir, relative):
     result = []
-    with open(os.path.join(package_dir, relative)) as f:
-        for line in f:
+    if relative.startswith("@generated:"):
+        source = relative[len("@generated:"):].split(";")
+    else:
+        with open(os.path.join(package_dir, relative)) as f:
+            source = f.readlines()
+    if True:
+        for line in source:
             if line.startswith("#"):
                 continue
             m = _FACTOR_LINE.match(line)
@@ -62,6 +67,8 @@ FAMILIES = {
                     "veto": True,
                     "cost": 3},
     "dip_atom": {"base": "2018_JCP_149_064113/dipoles/atom_factors.ini", "n": (2, 5), "cost": 1},
+    "dip_atom_ff": {"base": "2018_JCP_149_064113/dipoles/atom_factors.ini", "n": (2, 5), "cost": 1,
+                    "factor_swarm": True},
     "dip_in": {"base": "2018_JCP_149_064113/dipoles/dipole_factors_inside_first.ini", "n": (2, 5), "cost": 1},
     "dip_out": {"base": "2018_JCP_149_064113/dipoles/dipole_factors_outside_first.ini", "n": (2, 5), "cost": 1},
     "dip_ratio": {"base": "2018_JCP_149_064113/dipoles/dipole_factors_ratio.ini", "n": (2, 5), "cost": 1},
@@ -107,13 +114,25 @@ def generate(rng, family, package_dir, events=2000, vary=True, shipped_n=False):
     for section, options in spec.get("cheap", {}).items():
         if section in sections:
             set_out.setdefault(section, {}).update(options)
+    if spec.get("factor_swarm") and vary:
+        # a generated well-formed factor file: the intra-molecular bond plus random subsets of the four inter-
+        # molecular index pairs for each pair factor type
+        pairs = ["[0, 2]", "[0, 3]", "[1, 2]", "[1, 3]"]
+        lines = ["[0, 1], Harmonic"]
+        for label in ("Repulsive", "Coulomb"):
+            chosen = [p for p in pairs if rng.random() < 0.6] or [rng.choice(pairs)]
+            rng.shuffle(chosen)
+            lines.extend("%s, %s" % (p, label) for p in chosen)
+        value = "@generated:" + ";".join(lines)
+        sections["FactorTypeMaps"]["filename"] = value
+        set_out.setdefault("FactorTypeMaps", {})["filename"] = value
     lo, hi = spec["n"]
     input_section = "LatticeInputHandler" if spec.get("lattice") else "RandomInputHandler"
     if shipped_n or not vary or spec.get("fixed_n"):
         n = int(sections[input_section]["number_of_root_nodes"])
     else:
         n = rng.randint(lo, hi)
-    if n != int(sections[input_section]["number_of_root_nodes"]):
+    if n != int(sections[input_section]["number_of_root_nodes"]) or spec.get("factor_swarm"):
         scale_units(sections, package_dir, n, set_out, input_section)
     if vary and spec.get("cuboid"):
         dim = rng.choice([2, 3]) if "cells" in family else 3
